@@ -529,14 +529,16 @@ def r12_11(ctx: Ctx, rule: str = "R12.11") -> None:
     sinks = [c for c in q.calls(f) if (dotted(c.func) == "os.utime" or attr_tail(c) in ("chmod", "utime")) and q.enclosing_loops(f, c)]
     ctx.floor(rule, len(sinks), 2, "utime/chmod calls in the post-pass of _extract")
     for c in sinks:
-        lp = q.enclosing_loops(f, c)[-1]
         ok = False
-        for t in cfg.nodes:
-            if t.kind == "test" and any(isinstance(x, ast.Call) and (dotted(x.func) == "os.path.islink" or attr_tail(x) == "is_symlink") for x in ast.walk(t.ast)) \
-                    and cfg.dominates(t, q.node_for(f, c)) and any(t.ast is x for st in lp.body for x in ast.walk(st)):
-                te = next((e for e in t.succ if e.kind == "true"), None)
-                if te is not None and not cfg.reaches(te, q.node_for(f, c), avoid=[cfg.by_ast[lp]]):
-                    ok = True
+        for lp in q.enclosing_loops(f, c):  # (a helper expanded in place may add a loop of its own around the calls)
+            if lp not in cfg.by_ast:
+                continue
+            for t in cfg.nodes:
+                if t.kind == "test" and any(isinstance(x, ast.Call) and (dotted(x.func) == "os.path.islink" or attr_tail(x) == "is_symlink") for x in ast.walk(t.ast)) \
+                        and cfg.dominates(t, q.node_for(f, c)) and any(t.ast is x for st in lp.body for x in ast.walk(st)):
+                    te = next((e for e in t.succ if e.kind == "true"), None)
+                    if te is not None and not cfg.reaches(te, q.node_for(f, c), avoid=[cfg.by_ast[lp]]):
+                        ok = True
         ctx.check(ok, rule, f, c, "times and modes are set on extracted files, not through a link that took a file's place",
                   f"`{norm(c)[:70]}` follows links: when a later member replaced the file by a link (members 'l' and 'x/../l' -> the archive, extracted into the archive's directory) the "
                   "mode and time of the vanished file are put on the link's target - the archive being read ends up with mode 000", construct="post-pass through a replaced entry")
